@@ -15,6 +15,14 @@
 #include <stdatomic.h>
 #include <stdint.h>
 
+#ifdef LIBFIBER_VERIF
+/* verification hooks (model checker runtime): inline assembly is invisible to
+   compiler instrumentation, so the three asm primitives announce themselves */
+extern void fmc_spin_hint(void);
+extern void fmc_fence(void);
+extern void fmc_rmw16(volatile void* location);
+#endif
+
 _Static_assert(ATOMIC_BOOL_LOCK_FREE == 2, "");
 _Static_assert(ATOMIC_CHAR_LOCK_FREE == 2, "");
 _Static_assert(ATOMIC_CHAR16_T_LOCK_FREE == 2, "");
@@ -37,6 +45,9 @@ static inline void write_barrier() {
 
 /* this barrier orders writes against reads */
 static inline void store_load_barrier() {
+#ifdef LIBFIBER_VERIF
+  fmc_fence();
+#endif
 #if defined(__i386__)
   __asm__ __volatile__("lock; addl $0,0(%%esp)" : : : "memory");
 #elif defined(__x86_64__)
@@ -56,6 +67,9 @@ static inline void load_load_barrier() {
 }
 
 static inline void cpu_relax() {
+#ifdef LIBFIBER_VERIF
+  fmc_spin_hint();
+#endif
 #if defined(__i386__) || defined(__x86_64__)
   __asm__ __volatile__("pause" : : : "memory");
 #else
@@ -76,6 +90,9 @@ static inline int compare_and_swap2(volatile pointer_pair_t* location,
   return __sync_bool_compare_and_swap(
       (uint64_t*)location, *(uint64_t*)original_value, *(uint64_t*)new_value);
 #elif defined(__x86_64__)
+#ifdef LIBFIBER_VERIF
+  fmc_rmw16(location);
+#endif
   char result;
   __asm__ __volatile__(
       "lock cmpxchg16b %1\n\t"
